@@ -30,7 +30,7 @@ func ruleFlagChecks(c *Ctx) {
 		},
 		{
 			// the historical relaxation of required flags applies only before Aspidochelone, only to Management, only to deploy/update
-			ID: "native.Call.relaxation", Fn: [3]string{"pkg/core/native", "", "Call"}, Target: "node:local:reqFlags,op:&,pkg/smartcontract/callflag.States",
+			ID: "native.Call.relaxation", Fn: [3]string{"pkg/core/native", "", "Call"}, Target: "node:local<-pkg/core/interop#RequiredFlags,op:&,pkg/smartcontract/callflag.States",
 			Guards: []Guard{
 				{ID: "pre-aspidochelone", Doc: "required flags are relaxed only before the Aspidochelone hardfork", Alts: [][]string{{"pkg/config.HFAspidochelone", "pkg/core/interop.(*Context).IsHardforkEnabled"}}},
 				{ID: "management-only", Doc: "required flags are relaxed only for the Management contract", Alts: [][]string{{"pkg/core/interop.(Ledger).NativeManagementID", "pkg/core/state#ID"}}},
@@ -54,11 +54,11 @@ func ruleCallGuards(c *Ctx) {
 	runGates(c, []GateSpec{
 		{
 			ID: "callInternal.safe", Fn: fnCI, Target: "call:" + symCX, Assume: symAssume("pkg/smartcontract/manifest#Safe", true),
-			MustNode: [][]string{{"param:f", "op:&^", "pkg/smartcontract/callflag.WriteStates", "pkg/smartcontract/callflag.AllowNotify"}},
+			MustNode: [][]string{{"param#3", "op:&^", "pkg/smartcontract/callflag.WriteStates", "pkg/smartcontract/callflag.AllowNotify"}},
 		},
 		{
 			ID: "callInternal.permission", Fn: fnCI, Target: "call:" + symCX,
-			Assume: &Assume{Sym: map[string]bool{"pkg/smartcontract/manifest#Safe": false}, Conds: []AssumeCond{{Mentions: []string{"pkg/vm.(*VM).Context"}, Not: []string{"local:mfst"}, Val: true}}},
+			Assume: &Assume{Sym: map[string]bool{"pkg/smartcontract/manifest#Safe": false}, Conds: []AssumeCond{{Mentions: []string{"pkg/vm.(*VM).Context"}, Not: []string{"local<-pkg/vm.(*Context).GetManifest"}, Val: true}}},
 			Guards: []Guard{{ID: "can-call", Doc: "a deployed caller reaches a non-safe method only if its manifest permits the callee and the method", Whole: true,
 				Alts: [][]string{{"pkg/smartcontract/manifest.(*Manifest).CanCall", "pkg/core/state#Hash", "pkg/smartcontract/manifest#Name"}},
 				Extra: []string{"pkg/core/interop#VM", "pkg/core/interop.(*Context).GetContract", "pkg/core/state#Manifest", "pkg/vm.(*Context).GetManifest", "pkg/vm.(*VM).Context", "pkg/vm.(*VM).GetCurrentScriptHash"}}},
@@ -66,12 +66,12 @@ func ruleCallGuards(c *Ctx) {
 		{
 			ID: "callExFromNative.load", Fn: fnCX, Target: "call:pkg/vm.(*VM).LoadNEFMethod",
 			Assume:   &Assume{Conds: []AssumeCond{{Mentions: []string{"pkg/core/interop#PolicyChecker"}, Not: []string{"pkg/core/interop.(PolicyChecker).IsBlocked", "pkg/core/interop.(PolicyChecker).WhitelistedFee"}, Val: true}}},
-			MustNode: [][]string{{"param:f", "op:&", symGetCallFlags}},
+			MustNode: [][]string{{"param#5", "op:&", symGetCallFlags}},
 			Guards: []Guard{{ID: "not-blocked", Doc: "a blocked contract is never loaded", Alts: [][]string{{"pkg/core/interop.(PolicyChecker).IsBlocked"}}}},
 		},
 		{
 			ID: "runtime.LoadScript.load", Fn: [3]string{"pkg/core/interop/runtime", "", "LoadScript"}, Target: "call:pkg/vm.(*VM).LoadDynamicScript",
-			MustNode: [][]string{{"local:fs", "op:&", symGetCallFlags, "pkg/smartcontract/callflag.ReadOnly"}},
+			MustNode: [][]string{{"local<-pkg/vm.(*Stack).Pop", "op:&", symGetCallFlags, "pkg/smartcontract/callflag.ReadOnly"}},
 			Guards: []Guard{{ID: "script-correct", Doc: "a dynamic script passes the static script check before being loaded", Alts: [][]string{{"pkg/smartcontract/scparser.IsScriptCorrect"}}}},
 		},
 	})
@@ -85,17 +85,17 @@ func ruleCallGuards(c *Ctx) {
 		f := c.P.NewFuncCFG(fd)
 		for _, s := range f.CallSites(callee) {
 			if idx < len(s.call.Args) {
-				if id, ok := ast.Unparen(s.call.Args[idx]).(*ast.Ident); ok && id.Name == want {
-					c.OK(key, c.P.Pos(s.call.Pos()), fmt.Sprintf("flags argument of %s is the masked variable %s", shortSym(callee), want))
+				if id, ok := ast.Unparen(s.call.Args[idx]).(*ast.Ident); ok && f.DirectMentions(id)[want] {
+					c.OK(key, c.P.Pos(s.call.Pos()), fmt.Sprintf("flags argument of %s is the masked variable %s", shortSym(callee), id.Name))
 					continue
 				}
 			}
 			c.Fail(key, c.P.Pos(s.call.Pos()), fmt.Sprintf("flags argument of %s is not the variable that was intersected with the current context's flags", shortSym(callee)))
 		}
 	}
-	argIs("callExFromNative.load.flags-arg", fnCX, "pkg/vm.(*VM).LoadNEFMethod", 4, "f")
-	argIs("runtime.LoadScript.load.flags-arg", [3]string{"pkg/core/interop/runtime", "", "LoadScript"}, "pkg/vm.(*VM).LoadDynamicScript", 1, "fs")
-	argIs("callInternal.flags-arg", fnCI, symCX, 5, "f")
+	argIs("callExFromNative.load.flags-arg", fnCX, "pkg/vm.(*VM).LoadNEFMethod", 4, "param#5")
+	argIs("runtime.LoadScript.load.flags-arg", [3]string{"pkg/core/interop/runtime", "", "LoadScript"}, "pkg/vm.(*VM).LoadDynamicScript", 1, "local<-pkg/vm.(*Stack).Pop")
+	argIs("callInternal.flags-arg", fnCI, symCX, 5, "param#3")
 
 	// flag-taking loaders are called inside the execution closure only from the two functions above
 	g := c.P.MRG()
@@ -330,7 +330,7 @@ func rulePermissions(c *Ctx) {
 	runGates(c, []GateSpec{{
 		ID: "IsAllowed.allow", Fn: [3]string{"pkg/smartcontract/manifest", "Permission", "IsAllowed"}, Target: "call:pkg/smartcontract/manifest.(*WildStrings).IsWildcard",
 		Assume: &Assume{Conds: []AssumeCond{{Mentions: []string{"pkg/smartcontract/manifest.PermissionHash"}, Val: true}, {Mentions: []string{"pkg/smartcontract/manifest.PermissionWildcard"}, Val: false}}},
-		Guards: []Guard{{ID: "hash-equal", Doc: "a hash permission allows only the contract with that hash", Alts: [][]string{{"pkg/smartcontract/manifest.(*PermissionDesc).Hash", "param:hash", "pkg/util.(Uint160).Equals"}}}},
+		Guards: []Guard{{ID: "hash-equal", Doc: "a hash permission allows only the contract with that hash", Alts: [][]string{{"pkg/smartcontract/manifest.(*PermissionDesc).Hash", "param#0", "pkg/util.(Uint160).Equals"}}}},
 	}, {
 		ID: "IsAllowed.allow.group", Fn: [3]string{"pkg/smartcontract/manifest", "Permission", "IsAllowed"}, Target: "call:pkg/smartcontract/manifest.(*WildStrings).IsWildcard",
 		Assume: &Assume{Conds: []AssumeCond{{Mentions: []string{"pkg/smartcontract/manifest.PermissionGroup"}, Val: true}, {Mentions: []string{"pkg/smartcontract/manifest.PermissionWildcard"}, Val: false}, {Mentions: []string{"pkg/smartcontract/manifest.PermissionHash"}, Val: false}}},
